@@ -441,7 +441,7 @@ fn sequence_at(k: usize, nops: usize, mut h: Histogram, b: [f64; K], ops: u8, s:
         i += 1;
     }
     kani::cover!(k == 3 && ops & 3 == 3 && out[0].1 == 1 && out[1].1 == 2 && out[2].1 == 4);
-    kani::cover!(k == 2 && ops & 3 == 2 && total == 3);
+    kani::cover!(k == 2 && ops & 3 == 2 && total >= 3 && total <= 4);
 }
 #[cfg(kani)]
 #[kani::proof]
